@@ -7,7 +7,7 @@
       semantic value, including BlockStringValue()  ([lex_string], [block_string_value]).
 
     Definitions only. *)
-From V Require Import Base.Util.
+From V Require Import Base.Util Gql.Ast.
 Local Open Scope N_scope.
 
 Definition omap {A B} (f : A -> B) (o : option A) : option B :=
@@ -281,3 +281,53 @@ Definition value_spec (t : strtok) : str :=
     the characters between the delimiters, unprocessed) *)
 Definition value_nitrogql (t : strtok) : str :=
   match t with TNormal v => v | TBlock raw => raw end.
+
+(** ** the schema a GraphQL server is to load: the checked schema minus nitrogql-only directives
+
+    "Minus the directive [n]" read literally: the definition of [@n] and every application of
+    [@n], wherever it stands, are gone and nothing else changes. *)
+Definition not_named (n : str) (d : directive) : bool := negb (str_eqb (iname (dir_name d)) n).
+Definition erase_dirs (n : str) (ds : list directive) : list directive := filter (not_named n) ds.
+Definition erase_inputval (n : str) (i : inputvaldef) : inputvaldef :=
+  mkInputVal (iv_desc i) (iv_pos i) (iv_name i) (iv_type i) (iv_default i) (erase_dirs n (iv_dirs i)).
+Definition erase_fielddef (n : str) (f : fielddef) : fielddef :=
+  mkFieldDef (fd_desc f) (fd_name f) (option_map (map (erase_inputval n)) (fd_args f)) (fd_type f)
+             (erase_dirs n (fd_dirs f)).
+Definition erase_enumval (n : str) (e : enumvaldef) : enumvaldef :=
+  mkEnumVal (ev_desc e) (ev_name e) (erase_dirs n (ev_dirs e)).
+Definition erase_typedef (n : str) (t : typedef) : typedef :=
+  match t with
+  | TDScalar d p x ds k => TDScalar d p x (erase_dirs n ds) k
+  | TDObject d p x im ds fs k => TDObject d p x im (erase_dirs n ds) (map (erase_fielddef n) fs) k
+  | TDInterface d p x im ds fs k => TDInterface d p x im (erase_dirs n ds) (map (erase_fielddef n) fs) k
+  | TDUnion d p x ds ms k => TDUnion d p x (erase_dirs n ds) ms k
+  | TDEnum d p x ds vs k => TDEnum d p x (erase_dirs n ds) (map (erase_enumval n) vs) k
+  | TDInput d p x ds fs k => TDInput d p x (erase_dirs n ds) (map (erase_inputval n) fs) k
+  end.
+Definition erase_typeext (n : str) (t : typeext) : typeext :=
+  match t with
+  | TEScalar p x ds => TEScalar p x (erase_dirs n ds)
+  | TEObject p x im ds fs => TEObject p x im (erase_dirs n ds) (map (erase_fielddef n) fs)
+  | TEInterface p x im ds fs => TEInterface p x im (erase_dirs n ds) (map (erase_fielddef n) fs)
+  | TEUnion p x ds ms => TEUnion p x (erase_dirs n ds) ms
+  | TEEnum p x ds vs => TEEnum p x (erase_dirs n ds) (map (erase_enumval n) vs)
+  | TEInput p x ds fs => TEInput p x (erase_dirs n ds) (map (erase_inputval n) fs)
+  end.
+Definition erase_tsdef (n : str) (x : tsdef) : list tsdef :=
+  match x with
+  | TSDirective dd =>
+      if str_eqb (iname (dd_name dd)) n then []
+      else [TSDirective (mkDirDef (dd_desc dd) (dd_pos dd) (dd_name dd)
+                                  (option_map (map (erase_inputval n)) (dd_args dd))
+                                  (dd_repeatable dd) (dd_locs dd) (dd_kw dd))]
+  | TSSchema sd => [TSSchema (mkSchemaDef (sd_desc sd) (sd_pos sd) (erase_dirs n (sd_dirs sd)) (sd_ops sd))]
+  | TSType t => [TSType (erase_typedef n t)]
+  | TSSchemaExt se => [TSSchemaExt (mkSchemaExt (se_pos se) (erase_dirs n (se_dirs se)) (se_ops se))]
+  | TSTypeExt t => [TSTypeExt (erase_typeext n t)]
+  end.
+Definition erase_directive (n : str) (d : tsdoc) : tsdoc := flat_map (erase_tsdef n) d.
+
+(** what serverGraphqlOutput is to denote for the resolved schema [d] *)
+Definition spec_server_schema (model_plugin : bool) (d : tsdoc) : tsdoc :=
+  let d1 := erase_directive (s "nitrogql_ts_type") d in
+  if model_plugin then erase_directive (s "model") d1 else d1.
